@@ -67,13 +67,11 @@ func c20ByLanguage(p *Program, r *Report) bool {
 	for _, ret := range Returns(fn) {
 		if len(ret.Results) == 2 && certainlyNonNil(ret.Results[1], ret.Block()) {
 			// an error return: the zero value
-			k, ok := ret.Results[0].(*ssa.Const)
-			r.Check(ok && k.Value == nil, "C20.R1", fmt.Sprintf("%s#error-return@%s", cname, p.Pos(ret.Pos())), p.Pos(ret.Pos()), "error path returns the zero TrustedSource", "an error return carries a non-zero TrustedSource")
+			r.Check(zeroResultAt(ret, 0), "C20.R1", fmt.Sprintf("%s#error-return@%s", cname, p.Pos(ret.Pos())), p.Pos(ret.Pos()), "error path returns the zero TrustedSource", "an error return carries a non-zero TrustedSource")
 			continue
 		}
 		if _, isErrCall := ret.Results[1].(*ssa.Call); isErrCall && provenError(ret.Results[1]) {
-			k, ok := ret.Results[0].(*ssa.Const)
-			r.Check(ok && k.Value == nil, "C20.R1", fmt.Sprintf("%s#error-return@%s", cname, p.Pos(ret.Pos())), p.Pos(ret.Pos()), "error path returns the zero TrustedSource", "an error return carries a non-zero TrustedSource")
+			r.Check(zeroResultAt(ret, 0), "C20.R1", fmt.Sprintf("%s#error-return@%s", cname, p.Pos(ret.Pos())), p.Pos(ret.Pos()), "error path returns the zero TrustedSource", "an error return carries a non-zero TrustedSource")
 			continue
 		}
 		alts = append(alts, oe.strLx(ret.Results[0], ret.Block(), fr))
